@@ -52,6 +52,9 @@ def leaf():
     d.append("ListStr ::= SEQUENCE (SIZE(0..4)) OF IA5String (SIZE(0..3))")
     d.append("SetOfInt ::= SET (SIZE(0..5)) OF INTEGER (-8..7)")
     d.append("ListColor ::= SEQUENCE OF ColorX")
+    # X.691 14.1 / 23.4: indices follow the numeric values / the canonical tag order, not the text
+    d.append("EnumOrd ::= ENUMERATED { hi(5), lo(2), mid(3) }")
+    d.append("ChoiceOrd ::= CHOICE { z [5] BOOLEAN, a [2] INTEGER (0..7), m [3] NULL }")
     return module("ZooLeaf", "\n".join(d))
 
 
